@@ -19,7 +19,6 @@ import (
 	gpb "github.com/openconfig/gnmi/proto/gnmi"
 	"github.com/openconfig/gnmi/proto/gnmi_ext"
 	"google.golang.org/grpc/codes"
-	"strings"
 	"time"
 
 	transactionstore "github.com/onosproject/onos-config/pkg/store/v3/transaction"
@@ -1074,7 +1073,8 @@ func addDeleteChildren(index configapi.Index, changeValues map[string]configapi.
 		// if this pathValue has to be deleted, then we need to search for all children of this pathValue
 		if changeValue.Deleted {
 			for _, value := range configStore {
-				if strings.HasPrefix(value.Path, changeValue.Path) && !strings.EqualFold(value.Path, changeValue.Path) {
+				// cascade only to true descendants; paths set by the change itself keep the value of the change
+				if _, inChange := changeValues[value.Path]; !inChange && pathutils.IsDescendantPath(value.Path, changeValue.Path) {
 					value.Index = index
 					value.Deleted = true
 					updChangeValues[value.Path] = value
